@@ -43,6 +43,10 @@ claimed={
    text="Every rule body of <= NTOK tokens over the 10-token grammar-expression alphabet (kinds are symbolic selectors) is parsed by the real tpl/parser and compared with a reference precedence parser; ill-formed bodies must yield an error.",
    note="Trusted: gosym engine, z3, the reference parser in harness/c31. Bounded token count.",
    technique="differential symbolic execution (implementation vs reference parser) over go/ssa with SMT (z3)"),
+ "C24": dict(level="model_checking", ref="6 (C24)",
+   text="RearrangeFuncs/splitStmts/isFuncDecl/codeOf and the real scanner run in the engine on scripts assembled from symbolic selectors over 16 statement templates and 3 separators; the expected output (stable hoisting of function declarations over chunks, byte-exact) is known by construction. The SourceEx clause runs the real format.Source (parser + printer) in the engine.",
+   note="Trusted: gosym engine, z3, the statement templates' classification. Bounded: <= K statements from the template table.",
+   technique="symbolic execution of go/ssa with SMT (z3): solver-enumerated selector forks, construction-based oracle; native replay"),
 }
 na_default="check not built yet (work in progress)"
 na={}
